@@ -295,6 +295,9 @@ func localCalls(w *World, ri int, alpha string) []pt.Action {
 			}
 			if strings.Contains(alpha, "alias") {
 				add(pt.Action{Op: "put", K: k, V: "sm"})
+				if r.mp.Get(k) != nil {
+					add(pt.Action{Op: "getmut", K: k})
+				}
 			}
 			if r.mp.Get(k) != nil {
 				add(pt.Action{Op: "rem", K: k})
@@ -663,6 +666,9 @@ func (m *e1Machine) apply1(a pt.Action) *pt.Violation {
 	m.last = fmt.Sprintf("%s|%s", out.Err, out.Ret)
 	if out.Panic != "" {
 		return viol("E1:panic:"+a.Op+":"+firstLine(out.Panic), "%s panicked: %s", a, out.Panic)
+	}
+	if out.Leak != "" {
+		return viol("C01:read-hands-out-the-replica's-own-state:"+m.w.P.Type, "%s: no operation was issued, yet the replica reads differently (%s): replicas that applied the same operations differ", a, out.Leak)
 	}
 	if a.Op == "sync" && out.Err != "" {
 		return viol("E1:deliver-error:"+out.Err, "replica %d failed to apply operations from the log: %v", a.R, m.w.errs)
